@@ -3799,10 +3799,15 @@ class DecVarSub(VarSub):
                               'before the model is formulated.')
 
         self.fixed = False
+        num_rand = self.dro_model.sup_model.vars[-1].last
+        if self.dvars.rand_adapt is not None:
+            self.rand_adapt = self.dvars.rand_adapt
         if self.rand_adapt is None:
-            sup_model = self.dro_model.sup_model
-            self.rand_adapt = np.zeros((self.size, sup_model.vars[-1].last),
-                                       dtype=np.int8)
+            self.rand_adapt = np.zeros((self.size, num_rand), dtype=np.int8)
+        elif self.rand_adapt.shape[1] < num_rand:
+            extra = np.zeros((self.size, num_rand - self.rand_adapt.shape[1]),
+                             dtype=np.int8)
+            self.rand_adapt = np.hstack((self.rand_adapt, extra))
 
         dec_indices = self.indices
         dec_indices = dec_indices.reshape((dec_indices.size, 1))
